@@ -1154,19 +1154,16 @@ def gen_gmx_cases(ctx):
 
 
 def gmx_line(case, realised, repaired=False):
-    """repaired = the order function gets -v on backward paths like in every other engine (`velSeen`); the model
-    `gmxExt` is the code as found (`gmxVelSeen rev v = v`, theorem gmxVelSeen_eq), so the repaired prediction is
-    obtained from it by negating the file velocities of a backward case"""
+    """Variant.repaired = the order function gets -v on backward paths like in every other engine (`velSeen`, /repo
+    since f551f52); Variant.asIs = the code as found (`gmxVelSeen rev v = v`)"""
     frames = case["frames"]
-    if repaired and case["rev"]:
-        frames = [(d, L, -vx) for (d, L, vx) in frames]
     start = case.get("start", frames[0] if frames else (1.0, 16.0, 0.0))
     ds = sorted({f[0] for f in frames})
     Ls = sorted({f[1] for f in frames} | {start[1]})
     fr = [(ds.index(d), Ls.index(L), sc(vx)) for (d, L, vx) in frames]
     tab = [(ci, bi, sc(pbc(d, L))) for ci, d in enumerate(ds) for bi, L in enumerate(Ls)]
     ws = " ".join([str(len(realised))] + [f"{a} {b} {c} {d}" for a, b, c, d in realised])
-    return (f"gmxext {sc(case['left'])} {sc(case['right'])} {case['maxlen']} {int(bool(case['rev']))} {case['code']} "
+    return (f"gmxext {'rep' if repaired else 'asis'} {sc(case['left'])} {sc(case['right'])} {case['maxlen']} {int(bool(case['rev']))} {case['code']} "
             f"{gmx_need0(case.get('natoms', 2), bool(case.get('double', False)))} 400 {tri(fr)} {ws} {tri(tab)}")
 
 
